@@ -35,6 +35,11 @@ func aliasPool() []func() Stmt {
 		func() Stmt { return Def("b", &Slice{X: I("d"), Lo: N("0"), Hi: N("2")}) },
 		func() Stmt { return Def("b", C(I("append"), I("d"), N("4"))) },
 		func() Stmt { return Def("b", B("+", I("d"), &Immutable{X: arr("4")})) },
+		// an empty slice of an immutable array, then growth of that slice
+		// (z only ever holds slices of the immutable d: append on a slice of a MUTABLE array may or may not write into
+		// the shared capacity, "like Go's append", which the reference cannot decide)
+		func() Stmt { return Def("z", &Slice{X: I("d"), Lo: N("1"), Hi: N("1")}) },
+		func() Stmt { return Def("c", C(I("append"), I("z"), N("9"))) },
 		// spread into a variadic parameter: the callee's rest array is a fresh array, never the caller's
 		func() Stmt {
 			return Def("e", &Call{F: &Paren{X: &FuncLit{Params: []string{"x", "rest"}, VarArgs: true,
